@@ -161,7 +161,8 @@ where
                 .checked_add_signed(TimeDelta::minutes(1))
                 .expect("no valid datetime for time zone");
 
-            if let Some(dt) = self.tz.from_local_datetime(&naive).latest() {
+            // The first valid instant is expected here, even if the local time is ambiguous
+            if let Some(dt) = self.tz.from_local_datetime(&naive).earliest() {
                 break dt;
             }
         };
@@ -173,7 +174,7 @@ where
             .find_map(|secs| {
                 self.tz
                     .from_local_datetime(&(naive - TimeDelta::seconds(secs)))
-                    .latest()
+                    .earliest()
             })
             .unwrap_or(dt_minute)
     }
